@@ -12,7 +12,7 @@ def one(kind, d):
     tmp = tempfile.mkdtemp(prefix='nv_')
     try:
         shutil.copytree('/repo/src', tmp + '/src')
-        p = subprocess.run('patch -p1 -s -d %s < %s/%s/%s/patch.diff' % (tmp, V, kind, d), shell=True, capture_output=True, text=True)
+        p = subprocess.run('patch -p1 -s -d %s < %s/%s/patch.diff' % (tmp, base, d), shell=True, capture_output=True, text=True)
         if p.returncode:
             return d, 'PATCH-FAIL'
         code = ("import sys, ast, os; sys.path.insert(0, %r)\nfrom sa.core import Repo\nr = Repo(root=%r)\n"
@@ -20,20 +20,21 @@ def one(kind, d):
         q = subprocess.run(['/venv/bin/python', '-W', 'ignore', '-c', code], capture_output=True, text=True)
         if q.returncode:
             return d, 'NORMALISE-FAIL ' + q.stderr[-300:]
-        prog = os.path.join(V, kind, d, 'check.py' if kind == 'benign' else 'demo.py')
+        prog = os.path.join(base, d, 'check.py' if 'ben' in kind else 'demo.py')
         run = subprocess.run('cd %s && PYTHONPATH=%s/src timeout 300 /venv/bin/python -W ignore %s' % (tmp, tmp, prog), shell=True, capture_output=True, text=True)
-        return d, run.returncode, q.stdout.strip(), run.stderr[-300:] if run.returncode and kind == 'benign' else ''
+        return d, run.returncode, q.stdout.strip(), run.stderr[-300:] if run.returncode and 'ben' in kind else ''
     finally:
         shutil.rmtree(tmp, ignore_errors=True)
 
 
 kind = sys.argv[1]
-ids = sys.argv[2:] or sorted(os.listdir(os.path.join(V, kind)))
+base = kind if os.path.isabs(kind) else os.path.join(V, kind)
+ids = sys.argv[2:] or sorted(os.listdir(base))
 with ThreadPoolExecutor(12) as ex:
     res = list(ex.map(lambda d: one(kind, d), ids))
 bad = 0
 for r in res:
-    ok = (r[1] == 0) if kind == 'benign' else (isinstance(r[1], int) and r[1] != 0)
+    ok = (r[1] == 0) if 'ben' in kind else (isinstance(r[1], int) and r[1] != 0)
     if not ok:
         bad += 1
         print('UNEXPECTED', r)
